@@ -506,6 +506,9 @@ func (a *BigInt) M__complex__() (Object, error) {
 }
 
 func (a *BigInt) M__round__(digits Object) (Object, error) {
+	if digits == None {
+		return a, nil
+	}
 	if b, ok := ConvertToBigInt(digits); ok {
 		if (*big.Int)(b).Sign() >= 0 {
 			return a, nil
@@ -520,15 +523,16 @@ func (a *BigInt) M__round__(digits Object) (Object, error) {
 		scale := new(big.Int).Exp((*big.Int)(bigInt10), negB, nil)
 		digits := new(big.Int).Mod(r, scale)
 		r.Sub(r, digits)
-		// Round
+		// Round half to even
 		digits.Lsh(digits, 1)
-		if digits.Cmp(scale) >= 0 {
+		cmp := digits.Cmp(scale)
+		if cmp > 0 || (cmp == 0 && new(big.Int).Quo(r, scale).Bit(0) == 1) {
 			r.Add(r, scale)
 		}
 		if negative {
 			r.Neg(r)
 		}
-		return (*BigInt)(r), nil
+		return (*BigInt)(r).MaybeInt(), nil
 	}
 	return cantConvert(digits, "int")
 }
